@@ -20,6 +20,8 @@ pub fn run(ctx: &mut Ctx, suite: &str) {
         "c14r" => c02::run_c14r(ctx),
         "c03" => c03::run(ctx),
         "c04" => c04::run(ctx),
+        "c09" => c04::run_c09(ctx),
+        "c10" => c04::run_c10(ctx),
         "c05" => c05::run(ctx),
         "c20c" => c05::run_c20c(ctx),
         "c03b" => c05::run_c03b(ctx),
